@@ -232,3 +232,37 @@ CLAIMS['C06'] = CLAIMS['C06'].replace(
     ' Also decided: the candidate loop and glue of NeighMoving::getNeigh/_moving over symbolic filter tables (C06.h: exactly the admissible samples, sorted by distance, nmini/nmaxi, '
     'single sector) and the anisotropic distance test BiTargetCheckDistance::isOK in 2-D (C06.i, real-arithmetic reading). Not claimed: the Euclidean metric through SpacePoint, '
     'the ball-tree pre-selection inside _moving, the real cross-validation distance test.')
+
+
+# ---------------------------------------------------------------- C06.j BiTargetCheckDistance in 3-D (harness/C06/bidist3d.cpp)
+_BID3_STUBS = ['the two SpaceTarget objects are raw storage: only _coord (a real VectorDouble of size 3, read by SpacePoint::getCoord) is built']
+for _a1, _a2, _a3, _tiers in ((0, 90, 0, ('quick', 'thorough')), (0, 0, 90, ('quick', 'thorough')), (90, 0, 0, ('quick', 'thorough')), (0, 0, 0, ('quick', 'thorough')),
+                              (90, 90, 0, ('quick', 'thorough')), (0, 90, 90, ('quick', 'thorough')), (0, 270, 0, ('quick', 'thorough')), (0, 0, 180, ('quick', 'thorough')),
+                              (90, 0, 90, ('thorough',)), (90, 90, 90, ('thorough',)), (180, 90, 270, ('thorough',)), (0, 180, 90, ('thorough',))):
+    K('C06.j.a%d_%d_%d' % (_a1, _a2, _a3), property='C06', engine='symex', harness='C06/bidist3d.cpp', entry='k_bidist3d', tus=_BID_TUS,
+      defines={'all': {'VF_SYMANG': 0, 'VF_A1': _a1, 'VF_A2': _a2, 'VF_A3': _a3, 'VF_G': 32}}, tiers=_tiers,
+      bounds={'quick': '3-D; sample on the integer grid |v| <= 32, target = sample + integer increment |d| <= 64 per axis; anisotropy coefficients k/4 with k = 1..16 (0.25 .. 4); '
+                       'rotation angles (%d, %d, %d) degrees (exact 0 / +-1 cos/sin of the real GH::rotationGetSinCos); radius any integer |radius| <= 128' % (_a1, _a2, _a3)},
+      timeout_ms={'quick': 120000, 'thorough': 600000}, validate={'quick': 120, 'thorough': 240}, validate_doubles='int',
+      what='BiTargetCheckDistance(radius, coeffs, angles) constructor in 3-D (with GH::rotationMatrixInPlace / rotation3DMatrixInPlace / rotationGetSinCos, VH::isConstant), '
+           'BiTargetCheckDistance::isOK, _calculateDistance, matrix_product_safe, SpacePoint::getCoord: the pair is accepted iff radius >= 0 and '
+           'sum_d ((increment component along the d-th axis of the frame turned by angle 1 around oz, angle 2 around the new oy, angle 3 around the new ox) / coeff_d)^2 <= radius^2 '
+           '(quarter turns: the reference exchanges components, signs are irrelevant); getFlagRotation() is set iff some angle is non-zero',
+      out='rounding of the products, the division, the sum and the square root (real-arithmetic reading); angles that are not multiples of 90 degrees (only the rotation flag: C06.j.flag*); '
+          'undefined (TEST) radius or coordinates',
+      assumptions=['real-arithmetic reading: sqrt is the exact non-negative root'],
+      stubs=_BID3_STUBS)
+for _nang in (1, 2, 3):
+    K('C06.j.flag%d' % _nang, property='C06', engine='symex', harness='C06/bidist3d.cpp', entry='k_flag3d', tus=_BID_TUS,
+      defines={'all': {'VF_SYMANG': 1, 'VF_NANG': _nang}}, tiers=('quick', 'thorough'),
+      bounds={'quick': '3-D (three coefficients k/4, k = 1..16); %d angle(s) given, each an arbitrary real (zero included); radius any integer |radius| <= 128' % _nang},
+      timeout_ms={'quick': 120000, 'thorough': 600000}, validate={'quick': 60, 'thorough': 120},
+      what='BiTargetCheckDistance(radius, coeffs, angles) constructor in 3-D (VH::isConstant, GH::rotationMatrixInPlace / rotation3DMatrixInPlace): '
+           'getFlagRotation() (the switch that makes _calculateDistance use the rotated frame) is set iff ANY of the given angles is non-zero; ndim == 3; anisotropy flag set',
+      out='the content of the rotation matrix for arbitrary angles (libm cos/sin); the distance test itself (C06.j.a*)',
+      assumptions=[],
+      stubs=['GeometryHelper::rotationGetSinCos -> an arbitrary pair of reals per call (the flag must not depend on them)'])
+
+CLAIMS['C06'] = CLAIMS['C06'].replace(
+    'BiTargetCheckDistance::isOK in 2-D (C06.i, real-arithmetic reading).',
+    'BiTargetCheckDistance::isOK in 2-D (C06.i, real-arithmetic reading) and in 3-D for rotation angles that are multiples of 90 degrees, with the rotation switch decided for arbitrary angles (C06.j).')
